@@ -52,7 +52,11 @@ def history(draw):
     for _ in range(n):
         off = draw(st.integers(0, 24))
         a = base + off
-        k = draw(st.sampled_from(["write", "write", "write16", "write32", "print", "print16", "print32", "disasm"]))
+        k = draw(st.sampled_from(["write", "write", "write16", "write32", "print", "print16", "print32", "disasm", "disasm_all"]))
+        if k == "disasm_all":
+            if draw(st.sampled_from([True, False, False])):
+                cmds.append(("disasm_all", 0, 0, "disasm"))
+            continue
         if k == "write":
             vals = draw(st.lists(st.integers(0, 255), min_size=1, max_size=6))
             cmds.append(("write", a, vals, "write %s %s" % (spell(draw, a), " ".join(spell(draw, v) for v in vals))))
@@ -226,6 +230,9 @@ class Checker:
                     pass
                 else:
                     expect_range(idx, c[1], c[2], 4, rows(r, ROW32, 4))
+            elif kind == "disasm_all" and name != "ebpf":
+                # no range: everything that is in memory (loaded or written) between the lowest and the highest address
+                self.check_disasm_all(idx, name, bpa, m, r, fail)
             elif kind == "disasm" and name != "ebpf":
                 # ebpf: the range loop advances by less than one address unit on undefined opcodes, so the printed
                 # (unit) addresses are ambiguous; that tiling defect is C08's and is not re-reported here
@@ -251,6 +258,39 @@ class Checker:
                 fail("final sweep: memory differs from the model (address, expected, shown)", "sweep_differs", idx, bad)
             idx += 1
         return "ok"
+
+    def check_disasm_all(self, i, name, bpa, m, text, fail):
+        if not m.mem:
+            return
+        addrs = []
+        for line in text.split("\n"):
+            mm = c18.ADDR_LINE.match(line)
+            if mm:
+                addrs.append(int(mm.group(1), 16) * bpa)
+        covered = set()
+        for a in addrs:
+            ctx = bytes(m.rd(a + k) for k in range(32))
+            try:
+                d = self.w.dis(name, a, ctx)
+            except (WorkerCrash, WorkerTimeout):
+                return
+            ln = d[0][1] if d and d[0][1] > 0 else bpa
+            for k in range(max(ln, bpa)):
+                covered.add(a + k)
+        # an instruction word that is only partly inside [lowest, highest address] need not be listed
+        al = max(self_align(name), bpa)
+        lo_, hi_ = min(m.mem), max(m.mem)
+        if lo_ % al:
+            # byte writes made the lowest address unaligned: where the walk of an aligned ISA starts is then not defined
+            self.s.count("class.disasm_all_unaligned_low_skipped")
+            return
+        missing = sorted(a for a in m.mem if a not in covered and (a - a % al) >= lo_ and (a - a % al) + al - 1 <= hi_)
+        self.s.count("class.disasm_all")
+        if len(set(a >> 16 for a in m.mem)) > 1:
+            self.s.count("class.disasm_all_multi_page")
+        if missing:
+            fail("bytes that are in memory are not shown by 'disasm' without a range", "disasm_all_missing", i,
+                 dict(first_missing=[hex(x) for x in missing[:6]], count=len(missing), shown=len(addrs)))
 
     def check_disasm(self, i, name, bpa, m, text, fail):
         seen = set()
@@ -292,6 +332,10 @@ class Checker:
                 fail("opcode column of disasm does not show the bytes that were written", "wrong_disasm_bytes", i,
                      dict(line=line, memory=b.hex()))
             self.s.count("class.disasm_line_checked")
+
+
+def self_align(name):
+    return {c[0]: c[3] for c in CPUS}.get(name, 1)
 
 
 def run(tier, seed, shard, nshards):
